@@ -15,4 +15,8 @@ theorem interiorPrefix_tie : Merkle.interiorPrefix = Gen.MerkleConsts.interiorPr
 /-- the domain separation the hash hypotheses rest on: the two prefixes differ -/
 theorem prefixes_differ : Gen.MerkleConsts.leafPrefix ≠ Gen.MerkleConsts.interiorPrefix := by decide
 
+/-- merkle.go keeps no state between calls: its only package-level variables are the two hash
+    prefixes (so proof generation for one list cannot depend on earlier requests, as in the model) -/
+theorem no_package_state : Gen.MerkleConsts.packageVars = ["leafPrefix", "interiorPrefix"] := by decide
+
 end BytomModel.Ties.C30
